@@ -1,13 +1,15 @@
 """C05 — lines end only at CRLF, independent of TCP segmentation (lib/netio.c line reader)."""
 import re
 import runlib as R
+import session_common as _sc
 
 ID = 'C05'
 COQ_TARGETS = ['Props/Properties_C05.vo']
 PROPS_FILES = ['Props/Properties_C05.v']
 THEOREMS = ['C05_line_shape', 'C05_schedule_independent_clean', 'C05_no_smuggling_refuted', 'C05_schedule_independent_refuted']
 ENGINES = [dict(name='netio', c_sources=['netio_h.c'], extract='Extract/Extract_netio.v', driver='netio_driver.ml',
-                accepts=lambda c: c.startswith('bb '))]
+                accepts=lambda c: c.startswith('bb ')),
+           _sc.ENGINE]      # whole-program Qsmtpd: where the DATA command sees the end of the message (smtp_data on top of net_read)
 RULE = ('case = (byte stream, two read() schedules); the real net_read() is iterated to connection end under each schedule and the item '
         'sequences (line / EINVAL / E2BIG with the number of unconsumed bytes) are compared with the extracted model item by item and '
         'checked by the extracted boolean specification (shape: every line is cut at a CRLF, has no CR/LF, <= 999 octets; resync: a line '
@@ -88,6 +90,9 @@ def _cuts(rng, s):
 
 
 def gen_cases(engine, rng, tier):
+    if engine == 'session':
+        n = 300 if tier == 'quick' else 6000
+        return [_sc.session_gen.case('relay=none;ip=%s;databytes=0;qq=ok,ok,ok,ok' % rng.choice(['v4', 'v6']), _sc.session_gen.data_end_session(rng)) for _ in range(n)]
     n = 1500 if tier == 'quick' else 40000
     out = []
     for _ in range(n):
@@ -108,6 +113,8 @@ def _parse(c_out):
 
 
 def nontrivial(case, c_out):
+    if case.startswith('5e '):
+        return _sc.nontrivial(case, c_out)
     toks = c_out.split()
     has_line = any(t.startswith('L') for t in toks)
     has_err = any(t.startswith('E') for t in toks)
@@ -124,7 +131,7 @@ def classify(case, c_out, spec_out):
     """known-finding classes (see known_findings.txt):
        resync-after-stray  every line that does not start after CRLF directly follows an error item (F-C05-2)
        sched-overlong-cr   schedule dependence on a stream with >= 1000 octets free of CR/LF followed, before the next LF, by a bare CR (F-C05-3)"""
-    if not spec_out.startswith('bad:'):
+    if not spec_out.startswith('bad:') or case.startswith('5e '):
         return None
     reasons = set(spec_out[4:].split(','))
     if 'shape' in reasons or 'clean' in reasons:
@@ -155,7 +162,12 @@ def classify(case, c_out, spec_out):
 
 def distribution(results):
     d = dict(lines=0, einval=0, e2big=0, runs=0, spec_resync=0, spec_sched=0)
+    d['session_cases'] = sum(1 for r in results if r['case'].startswith('5e '))
+    d['session_handoffs'] = sum(1 for r in results if r['case'].startswith('5e ') for t in r['c'].split() if t.startswith('Q'))
+    d['session_judged_by_spec'] = sum(1 for r in results if r['case'].startswith('5e ') and r['spec'] != 'pre')
     for r in results:
+        if r['case'].startswith('5e '):
+            continue
         for t in r['c'].split():
             if t.startswith('L'): d['lines'] += 1
             elif t.startswith('EINVAL'): d['einval'] += 1
